@@ -13,9 +13,11 @@
 (*  wr   win path x could tried after o      CouldWriteValue / TryToWrite through window win        *)
 (*  eq   skipped ab ba                       Equals both ways (driver skips unless both views Ok)   *)
 (*  cp   dst ok after o                      window dst .TryToCopyFrom(other window)                *)
+(*  text opt skipped tree upd z              WriteToString(window 1, options) parsed into a tree by  *)
+(*                                           the harness, then UpdateFromText into a zeroed buffer z *)
 (* observation = << <<key, tag, value>>, ... >>                            *)
 (***************************************************************************)
-EXTENDS Integers, Sequences, TLC, Json, IOUtils
+EXTENDS Integers, Sequences, TLC, Json, IOUtils, Text
 
 File == JsonDeserialize(IOEnv.TRACE_FILE)
 Prog == File.prog
@@ -156,6 +158,91 @@ Copy ==
         /\ nbad' = nbad + B01(badRet) + B01(badMem) + B01(badObs)
   /\ Step
 
+---------------------------------------------------------------------------
+(* Text round trip (C06).  tree = << [n: name, v: value] >>; value = [k:"num", c: chars] | [k:"id", s: text]
+   | [k:"st", f: tree] | [k:"arr", e: << [i: chars or <<>>, v: value] >>]; opt = [ml, comments, base, group] *)
+
+RECURSIVE ValueOk(_, _, _, _), TreeOk(_, _, _), ElemsOk(_, _, _, _, _)
+
+NumOk(c, x, opt) == DocNumeral(c) /\ Parts(c).base = opt.base /\ SmallValue(c) = x /\ (opt.group = 0 => ~HasUnder(c))
+
+EnumValueOf(en, name) ==
+  LET vs == Prog.enums[en].values
+      m == {j \in 1..Len(vs) : vs[j].name = name}
+  IN IF m = {} THEN [k |-> FALSE, v |-> 0] ELSE [k |-> TRUE, v |-> vs[CHOOSE j \in m : TRUE].v]
+
+ScalarTextOk(st, en, x, val, opt) ==
+  CASE st = "Flag" -> val.k = "id" /\ val.s = (IF x = 1 THEN "true" ELSE "false")
+    [] st \in {"EnumU", "EnumS"} ->
+         IF val.k = "id" THEN EnumValueOf(en, val.s) = [k |-> TRUE, v |-> x]
+         ELSE val.k = "num" /\ NumOk(val.c, x, opt)
+    [] OTHER -> val.k = "num" /\ NumOk(val.c, x, opt)
+
+(* does the emitted value describe field f of view v? *)
+ValueOk(v, f, val, opt) ==
+  CASE f.kind = "scalar" -> FOk(v, f) /\ ScalarTextOk(f.st, IF f.st \in {"EnumU", "EnumS"} THEN f.enum ELSE "", FVal(v, f).v, val, opt)
+    [] f.kind = "virt" ->
+         IF f.alias # <<>> THEN ValueOk(PathView(v, f.alias), PathField(v, f.alias), val, opt)
+         ELSE FOk(v, f) /\ val.k = "num" /\ NumOk(val.c, FVal(v, f).v, opt)
+    [] f.kind = "sub" -> val.k \in {"st", "empty"} /\ TreeOk(SubV(v, f), val.f, opt)
+    [] f.kind = "array" -> val.k \in {"arr", "empty"} /\ Len(val.e) = DeclCount(v, f) /\ ElemsOk(v, f, val.e, 1, opt)
+
+ElemsOk(v, f, es, j, opt) ==
+  IF j > Len(es) THEN TRUE
+  ELSE /\ (es[j].i = <<>> \/ (DocNumeral(es[j].i) /\ SmallValue(es[j].i) = j - 1))
+       /\ (IF f.elem.kind = "scalar"
+           THEN ElemOk(v, f, j - 1) /\ ScalarTextOk(f.elem.st, "", ElemVal(v, f, j - 1), es[j].v, opt)
+           ELSE es[j].v.k \in {"st", "empty"} /\ TreeOk(ElemV(v, f, j - 1), es[j].v.f, opt))
+       /\ ElemsOk(v, f, es, j + 1, opt)
+
+FieldNames(v) == {TypeOf(v).fields[j].name : j \in 1..Len(TypeOf(v).fields)}
+TextAttr(f) == IF "text_output" \in DOMAIN f THEN f.text_output ELSE ""
+RECURSIVE RefHeads(_)
+RefHeads(e) ==
+  CASE e.k \in {"ref", "present"} -> {e.path[1]}
+    [] e.k = "op" -> UNION {RefHeads(e.args[j]) : j \in 1..Len(e.args)}
+    [] OTHER -> {}
+LocDeps(f) == IF f.kind = "virt" THEN {} ELSE RefHeads(f.start) \cup RefHeads(f.size) \cup RefHeads(f.cond)
+IdxOf(tree, n) == LET m == {j \in 1..Len(tree) : tree[j].n = n} IN IF m = {} THEN 0 ELSE CHOOSE j \in m : \A k \in m : j <= k
+
+(* which clauses of the text-output contract does the emitted tree break?  (set of clause names) *)
+TreeBad(v, tree, opt) ==
+  LET fs == TypeOf(v).fields
+      nameOk(j) == tree[j].n \in FieldNames(v)
+      fld(j) == FieldNamed(v.t, tree[j].n)
+  IN (IF \E j \in 1..Len(tree) : ~nameOk(j) THEN {"EmittedNameIsAField"} ELSE {})
+     \cup (IF \E j \in 1..Len(tree) : nameOk(j) /\ (~(Has(v, fld(j)) = Known(TRUE)) \/ (fld(j).kind = "sub" /\ fld(j).anon)) THEN {"EmittedFieldIsPresent"} ELSE {})
+     \cup (IF \E j \in 1..Len(tree) : nameOk(j) /\ TextAttr(fld(j)) = "Skip" THEN {"SkipIsAbsent"} ELSE {})
+     \cup (IF \E k \in 1..Len(fs) : TextAttr(fs[k]) = "Emit" /\ Has(v, fs[k]) = Known(TRUE) /\ IdxOf(tree, fs[k].name) = 0 THEN {"EmitIsPresent"} ELSE {})
+     \cup (IF \E k \in 1..Len(fs) :
+                 /\ (fs[k].kind \in {"scalar", "array"} \/ (fs[k].kind = "sub" /\ ~fs[k].anon))
+                 /\ TextAttr(fs[k]) # "Skip" /\ Has(v, fs[k]) = Known(TRUE) /\ IdxOf(tree, fs[k].name) = 0
+           THEN {"PresentFieldIsEmitted"} ELSE {})
+     \cup (IF \E j \in 1..Len(tree) : nameOk(j) /\ \E d \in LocDeps(fld(j)) : IdxOf(tree, d) > j THEN {"EmittedAfterDependencies"} ELSE {})
+     \cup (IF \E j \in 1..Len(tree) : nameOk(j) /\ Has(v, fld(j)) = Known(TRUE) /\ ~(fld(j).kind = "sub" /\ fld(j).anon) /\ ~ValueOk(v, fld(j), tree[j].v, opt)
+           THEN {"EmittedValueIsFieldValue"} ELSE {})
+TreeOk(v, tree, opt) == TreeBad(v, tree, opt) = {}
+
+TextRT ==
+  /\ HaveEvent /\ Ev.e = "text"
+  /\ LET w == Win(1)
+         v == TopView(Tr.t, Tr.ps, Window(mem, w))
+         enabled == VOk(v)
+         vz == TopView(Tr.t, Tr.ps, Ev.z)
+         bad1 == IF ~enabled THEN (IF Ev.skipped = 1 THEN {} ELSE {"TextOnlyWhenOk"})
+                 ELSE IF Ev.skipped = 1 THEN {"TextOnlyWhenOk"} ELSE TreeBad(v, Ev.tree, Ev.opt)
+         rt == IF enabled /\ Ev.skipped = 0
+               THEN (IF Ev.upd # 1 THEN {"UpdateFromTextSucceeds"} ELSE {}) \cup
+                    (IF \E j \in 1..Len(Ev.tree) : Ev.tree[j].n \in FieldNames(v) /\
+                          ObsField(v, FieldNamed(v.t, Ev.tree[j].n), "") # ObsField(vz, FieldNamed(v.t, Ev.tree[j].n), "")
+                     THEN {"EmittedFieldsReadBackEqual"} ELSE {})
+               ELSE {}
+         bad == bad1 \cup rt
+     IN /\ IF bad # {} THEN Report("TextRoundTrip", bad, [skipped |-> Ev.skipped, upd |-> Ev.upd, opt |-> Ev.opt]) ELSE TRUE
+        /\ nbad' = nbad + B01(bad # {})
+  /\ UNCHANGED <<mem, wins, stack>>
+  /\ Step
+
 NextTrace ==
   /\ tid <= Len(Traces) /\ i > Len(Traces[tid].ev)
   /\ tid' = tid + 1 /\ i' = 1 /\ mem' = <<>> /\ wins' = <<WholeWin(<<>>), WholeWin(<<>>)>> /\ stack' = <<>>
@@ -166,6 +253,6 @@ Done ==
   /\ PrintT(ToJson([summary |-> TRUE, traces |-> Len(Traces), events |-> nev, bad |-> nbad]))
   /\ tid' = tid + 1 /\ UNCHANGED <<i, mem, wins, stack, nbad, nev>>
 
-Next == Arrive \/ SetMem \/ Write \/ EqualsQuery \/ Copy \/ NextTrace \/ Done
+Next == Arrive \/ SetMem \/ Write \/ EqualsQuery \/ Copy \/ TextRT \/ NextTrace \/ Done
 Spec == Init /\ [][Next]_vars
 =============================================================================
